@@ -134,6 +134,15 @@ func main() {
 		os.Exit(cmdCheck(os.Args[2:]))
 	case "dev":
 		os.Exit(cmdDev(os.Args[2:]))
+	case "maploops":
+		prog, err := loadProgram("/repo", []string{"./..."})
+		if err != nil {
+			fmt.Fprintln(os.Stderr, err)
+			os.Exit(2)
+		}
+		for _, l := range prog.mapLoops() {
+			fmt.Printf("%-70s #%d %-8s %s\n", l.Func, l.Ord, l.Kind, l.Pos)
+		}
 	default:
 		fmt.Fprintln(os.Stderr, "unknown command")
 		os.Exit(2)
